@@ -87,6 +87,19 @@ CLAIMS = {
                   "validated against the real interpreter on every generated run.",
         technique="Lean 4 semantic-preservation proof by induction on a fuel-indexed evaluator + regenerated rule table + two-route differential runs",
         ref="§3 C06"),
+    "C07": dict(
+        text="Model/Store.lean mirrors the copy-then-rewrite discipline of kirin's CallGraphPass as used by InjectSpecsPass (root "
+             "rewritten in place, every transitively invoked method copied to a fresh id and the copy rewritten, invocations "
+             "redirected to the copies), over abstract code. Theorems for histories of any length, order and specs: C07_frame (every "
+             "method that was never a root is unchanged), C07_shared_unchanged (independent of compilation order), "
+             "C07_root_uses_own_spec (a root's new code is its old code rewritten with its own spec, redirected only to fresh ids), "
+             "specs are read-only values. Tie: histories of compilations over generated modules (shared helper subroutines, recursive "
+             "and closure-carrying ones, library moves) in every order for short histories; printed IR of every shared method, event "
+             "logs of every specialised kernel vs the unspecialised kernel under its own spec, and deep-copy comparison of every ArchSpec.",
+        note=TB + "CallGraphPass / Method.similar are modelled (read in kirin's source), not verified; the behavioural half "
+                  "(own spec observed) rests on the injection theorem of C06 plus the history runs.",
+        technique="Lean 4 invariant over compilation histories (abstract method store) + history-based differential observation",
+        ref="§3 C07"),
     "C09": dict(
         text="Model/Runtime.lean is the analysis of analysis/runtime.py on the program language (both branches, loop body once, "
              "invoked subroutines, closures, recursion cut-off, dynamic call = refusal); which statements mark a frame quantum is a "
